@@ -102,7 +102,7 @@ def run(repo, rep, tier):
         mul = repo.own_method(c, "__mul__")
         c08.scaling_rule(repo, rep, r4, c, m, mul, mul.params[0], mul.params[1], rule="R5.4")
     from .c03 import coverage_guard
-    coverage_guard(repo, prims)
+    coverage_guard(repo, prims, rep=rep)
     # ---------------- R5.3 vectorised slow path of Bin: clamp of the integer index
     b = repo.cls("Bin")
     npf = repo.own_method(b, "_numpy")
